@@ -32,7 +32,7 @@ for k in known:
     out.append("* `%s` (%s): %s" % (k["key"], k["property"], k["what"]))
 # seeds
 out.append("\n### 7.4 Independently seeded defects (`seeded/<id>/`)\n")
-out.append("Each was produced by a fresh sub-agent that saw only the property text and its own scratch worktree; `tools/seedcheck.py` confirmed it (demo passes on the clean tree and fails with the patch, `go build ./...` ok, touched packages' tests still green) and ran the property's quick check against it in a scratch worktree (`result.json`).\n")
+out.append("Each was produced by a fresh sub-agent that saw only the property text and its own scratch worktree; `tools/seedcheck.py` confirmed it (demo passes on the clean tree and fails with the patch in the configuration its description names, `go build ./...` ok; `tools/seedtests.py` re-ran the touched packages' and named dependents' own tests with the patch applied: `tests.json`) and ran the property's quick check against it in a scratch worktree (`result.json`).\n")
 out.append("| seed | files | needs | confirmed | caught by its property's check | note |\n|---|---|---|---|---|---|")
 notes = json.load(open(V + "/seeded/NOTES.json")) if os.path.exists(V + "/seeded/NOTES.json") else {}
 tot = caught = 0
@@ -48,6 +48,7 @@ for d in sorted(glob.glob(V + "/seeded/C*-*")):
         r2 = json.load(open(f))
         if r2.get("caught"):
             others.append(os.path.basename(f)[7:-5])
+    tests = json.load(open(d + "/tests.json")) if os.path.exists(d + "/tests.json") else None
     tot += 1
     c = res.get("caught")
     caught += 1 if (c or others) else 0
@@ -56,7 +57,7 @@ for d in sorted(glob.glob(V + "/seeded/C*-*")):
     if others:
         note = ("caught by " + ", ".join(others) + ". " + note).strip()
     out.append("| %s | %s | %s | %s | %s | %s |" % (sid, ", ".join(os.path.basename(x) for x in (meta.get("files") or [])[:3]),
-               str(meta.get("needs", "")).replace("|", "/")[:140], "yes" if res.get("confirmed") else ("?" if not res else "no"),
+               str(meta.get("needs", "")).replace("|", "/")[:140], ("yes" if tests is None or tests.get("ok") else "tests fail") if res.get("confirmed") else ("?" if not res else "no"),
                ("yes: `%s`" % viol) if c else ("no" if res else "not run"), note))
 out.append("\n%d of %d seeded defects are reported by at least one check.\n" % (caught, tot))
 out.append("### 7.5 Deliberate mutants by the check authors\n")
